@@ -8830,7 +8830,7 @@ class Image(SVGElement, GraphicObject, Transformable):
         GraphicObject.property_by_object(self, s)
         self.url = s.url
         self.data = s.data
-        self.viewbox = s.viewbox
+        self.viewbox = Viewbox(s.viewbox) if s.viewbox is not None else None  # its own copy
         self.preserve_aspect_ratio = s.preserve_aspect_ratio
 
         self.x = _own_length(s.x)
